@@ -186,6 +186,10 @@ CLAIMED["C14"]["text"] += (" Partial theorems (props/C14.v) over the interleavin
 CLAIMED["C02"]["text"] += (" Model level: C02_acknowledged_write_is_journaled_partial, C02_acknowledged_clear_is_journaled_partial. Large-traffic crash scenarios: a keyspace whose "
     "acknowledged writes live only in a sealed journal.")
 
+CLAIMED["C04"]["text"] += (" Independent judge on the implementation alone: the dump right before every reopen equals the first dump after it. The full statement is REFUTED on the "
+    "unchanged code (known finding E17, second face): a key deleted by an ingested tombstone reads its old value again after a reopen once a last-level compaction has evicted the "
+    "tombstone (C04_reopen_identity_refuted; corpus/C04/e17_ingested_tombstone_resurrected.txt) — reported as KNOWN-FINDING, every other change of content across a reopen is a violation.")
+
 m = {"version": 1, "setup_cmd": "./setup.sh",
      "hooks": {"guard": "cargo feature fjall_verif",
                "enable": "harness/Cargo.toml depends on fjall = { path = \"/repo\", features = [\"fjall_verif\"] }",
